@@ -420,7 +420,9 @@ def build_instance_id_sources() -> list:
         if isinstance(e, ast.Call):
             d = dotted(e.func)
             handled = False
-            if d is not None:
+            if isinstance(e.func, ast.Attribute) and e.func.attr in _NEUTRAL_METHODS and (d is None or "()" in d or d[0] == "<local>"):
+                handled = True                             # "{:012x}".format(...), (...).hex(), x.encode()
+            elif d is not None:
                 mod, name = d[0], d[-1]
                 if d[:2] == ("random", "SystemRandom") and len(d) >= 4:
                     n = const_int(e.args, 0)
@@ -465,9 +467,10 @@ def build_instance_id_sources() -> list:
                 src.append(".clientState")
                 return
             d = dotted(e)
-            if d is not None and d[0] in ("random", "time", "os", "secrets", "uuid", "numpy"):
+            if d is not None and "()" not in d and d[0] != "<local>":
                 return                                    # a module attribute on the way to a call (handled there)
-            raise TranslatorError(f"line {e.lineno}: the value of _instance_id reads {ast.unparse(e)}")
+            visit(e.value)                                # e.g. uuid.uuid4().hex
+            return
         if isinstance(e, ast.Name):
             if e.id in alias or e.id in ("self",):
                 return
@@ -628,6 +631,54 @@ def _show_tok(t) -> str:
         return "?" + repr(t)
 
 
+ALIGN_SEED = 1234
+
+
+class _aligned_process_state:
+    """Everything a client program can bring into the same state twice is brought into the same state while a context is
+    constructed: the global `random` generator (and numpy's, if imported) is re-seeded, the wall clock and the pid are
+    frozen.  Two runs of one script that starts with `random.seed(1234)` look like this to QMI_Context.__init__.  Whatever
+    makes context instances distinguishable must survive it."""
+
+    def __init__(self, k):
+        self.k = k
+
+    def __enter__(self):
+        import os as _os
+        import random as _random
+        import sys as _sys
+        import time as _time
+        if self.k is None:
+            return self
+        self.saved = (_random.getstate(), _time.time, _time.time_ns, _os.getpid)
+        _random.seed(self.k)
+        np = _sys.modules.get("numpy")
+        self.np_state = None
+        if np is not None:
+            try:
+                self.np_state = np.random.get_state()
+                np.random.seed(self.k)
+            except Exception:
+                self.np_state = None
+        _time.time = lambda: 1700000000.0
+        _time.time_ns = lambda: 1700000000 * 10 ** 9
+        _os.getpid = lambda: 4242
+        return self
+
+    def __exit__(self, *a):
+        import os as _os
+        import random as _random
+        import sys as _sys
+        import time as _time
+        if self.k is None:
+            return False
+        _random.setstate(self.saved[0])
+        _time.time, _time.time_ns, _os.getpid = self.saved[1], self.saved[2], self.saved[3]
+        if self.np_state is not None:
+            _sys.modules["numpy"].random.set_state(self.np_state)
+        return False
+
+
 class _World:
     def __init__(self, hist: dict):
         self.hist = hist
@@ -667,7 +718,9 @@ class _World:
         h = self.hist
         srvn = h["srv"]
         _state["world"] = self
-        self.srv = QMI_Context(srvn, CfgQmi(contexts={srvn: CfgContext(tcp_server_port=0)}))
+        self.align = h.get("align", ALIGN_SEED)
+        with _aligned_process_state(self.align):
+            self.srv = QMI_Context(srvn, CfgQmi(contexts={srvn: CfgContext(tcp_server_port=0)}))
         self.contexts.append(self.srv)
         self.srv.start()
         self._make_object("obj")
@@ -676,7 +729,8 @@ class _World:
         self.obj_addr = QMI_MessageHandlerAddress(srvn, "obj")
         port = self.srv.get_tcp_server_port()
         for nm in h["ctxs"]:
-            c = QMI_Context(nm)
+            with _aligned_process_state(self.align):
+                c = QMI_Context(nm)
             self.contexts.append(c)
             c.start()
             c.connect_to_peer(srvn, f"127.0.0.1:{port}")
@@ -709,7 +763,8 @@ class _World:
                 return "ok"
             if kind == "newctx":
                 from qmi.core.context import QMI_Context
-                c = QMI_Context(op[1])
+                with _aligned_process_state(self.align):
+                    c = QMI_Context(op[1])
                 self.contexts.append(c)
                 c.start()
                 c.connect_to_peer(self.hist["srv"], f"127.0.0.1:{self.srv.get_tcp_server_port()}")
@@ -1111,7 +1166,10 @@ def gen_history(rng, max_ops: int) -> dict:
             c = rng.choice([c for c in range(len(names)) if c not in stopped])
             ops.append(["newproxy", c])
             pctx.append(c)
-    return {"srv": srv, "ctxs": ctxs, "proxies": proxies, "ops": ops}
+    h = {"srv": srv, "ctxs": ctxs, "proxies": proxies, "ops": ops}
+    if rng.random() < 0.25:
+        h["align"] = None                 # a quarter of the histories without re-seeding (contexts built from whatever state there is)
+    return h
 
 
 def corpus_histories() -> list:
@@ -1621,6 +1679,77 @@ def retry_specs(rng, quick: bool) -> list:
 
 
 # ---------------------------------------------------------------------------
+# fresh-process family: two runs of one script
+# ---------------------------------------------------------------------------
+
+_PROC_SCRIPT = r"""
+import json, logging, os, random, sys
+sys.path.insert(0, sys.argv[1])
+random.seed(int(sys.argv[2]))
+try:
+    import numpy
+    numpy.random.seed(int(sys.argv[2]))
+except Exception:
+    pass
+logging.disable(logging.CRITICAL)
+from qmi.core.context import QMI_Context
+out = []
+for name in sys.argv[3:]:
+    c = QMI_Context(name)
+    out.append([name, [list(c.make_unique_token()) for _ in range(2)]])
+print("TOKENS " + json.dumps(out))
+sys.stdout.flush()
+os._exit(0)
+"""
+
+
+def run_fresh_processes(seed_value: int, names: list, runs: int = 3):
+    """The same script in `runs` fresh interpreters (same seed, same PYTHONHASHSEED): every context generates its first
+    two automatic tokens.  Returns [[(name, [tokens])...] per run]."""
+    import json as _json
+    import os as _os
+    import subprocess
+    import sys as _sys
+    import tempfile
+    env = dict(_os.environ, PYTHONHASHSEED="0", QMI_VERIF="1")
+    with tempfile.TemporaryDirectory() as td:
+        script = _os.path.join(td, "two_runs.py")
+        with open(script, "w") as f:
+            f.write(_PROC_SCRIPT)
+        procs = [subprocess.Popen([_sys.executable, script, str(core.REPO), str(seed_value)] + list(names), stdout=subprocess.PIPE,
+                                  stderr=subprocess.DEVNULL, text=True, env=env, cwd=td) for _ in range(runs)]
+        outs = []
+        for p in procs:
+            try:
+                so, _ = p.communicate(timeout=120)
+            except subprocess.TimeoutExpired:
+                p.kill()
+                so = ""
+            line = next((l for l in so.splitlines() if l.startswith("TOKENS ")), None)
+            outs.append(_json.loads(line[7:]) if line else None)
+    return outs
+
+
+def fresh_process_oracle(outs) -> list:
+    fails = []
+    if any(o is None for o in outs):
+        return [("fresh-process:script-failed", "a run of the two-line client script produced no tokens")]
+    seen = {}
+    for r, run in enumerate(outs):
+        for ci, (name, toks) in enumerate(run):
+            for k, t in enumerate(toks):
+                key = tuple(t)
+                if key in seen:
+                    r0, c0, k0 = seen[key]
+                    rel = "same-process" if r0 == r else "different-process"
+                    fails.append((f"auto-token-collision:same-name-{rel}:aligned-process-state",
+                                  f"run {r} context #{ci} ({name}) token #{k} = {key} = run {r0} context #{c0} token #{k0}"))
+                    return fails
+                seen[key] = (r, ci, k)
+    return fails
+
+
+# ---------------------------------------------------------------------------
 # the check
 # ---------------------------------------------------------------------------
 
@@ -1645,8 +1774,11 @@ class C04(Prop):
         "the float clock of lock(timeout > 0): the model counts time in whole ms and the harness never puts a timeout or a release on a "
         "multiple of the 100 ms period; round-trip times are 0 under the virtual clock (the theorems hold for arbitrary round-trip times)",
         "str(int) of the token counter = Lean `toString` on Nat (differentially checked by every automatic lock())",
-        "freshness of QMI_Context._instance_id (os.urandom(6)): the theorems assume the identifiers of distinct context instances "
-        "differ (hypothesis `nonces …Nodup`); the harness reads the real identifiers and hands them to the model",
+        "two draws of 48 OS-random bits differ (residual probabilistic assumption behind the hypothesis `nonces …Nodup` of "
+        "auto_tokens_distinct / only_holder_executes).  Checked: the identifier's source is classified from the AST (obligation "
+        "gen_instance_id_from_os_entropy: >= 48 bits of OS entropy, assigned once); every context of the histories is constructed with "
+        "the global PRNG re-seeded and clock/pid frozen; the same seeded script runs in fresh interpreters; the harness hands the real "
+        "identifiers to the model",
         "custom tokens that imitate the automatic namespace (`$lock_<instance id>_<n>`) are deliberate forgery and are not generated",
         "pickling of QMI_LockTokenDescriptor preserves == (tokens cross real TCP connections in the correspondence run)",
     ]
@@ -1825,6 +1957,17 @@ class C04(Prop):
             spec, detail = lst[0]
             res.failures.append(Failure(sig, f"{sig}: {spec}: {detail}", {"kind": "retry", "spec": spec, "signature": sig}))
 
+    # -- fresh-process family ------------------------------------------------------------------------
+    def _fresh_process_family(self, ctx: Ctx, res: Result):
+        for (k, names) in ((ALIGN_SEED, ["measure", "measure"]), (0, ["cli"])):
+            outs = run_fresh_processes(k, names, runs=3 if ctx.quick else 5)
+            res.note_case(("procs", k, tuple(names)), nontrivial=True)
+            res.count("fresh_process_runs", len(outs))
+            res.traces_validated += 1
+            for (sig, detail) in fresh_process_oracle(outs):
+                res.failures.append(Failure(sig, f"{sig}: script seeded with random.seed({k}), contexts {names}: {detail}",
+                                            {"kind": "procs", "seed_value": k, "names": names, "signature": sig}))
+
     # -- correspondence ---------------------------------------------------------------------------
     def correspondence(self, ctx: Ctx) -> Result:
         res = Result(rule="history = (server name, 1-3 client context names incl. duplicates, 1-4 proxies placed in the client contexts "
@@ -1846,6 +1989,7 @@ class C04(Prop):
             self._report(failures, res)
         self._conc_family(ctx, res, ctx.quick)
         self._retry_family(ctx, res, ctx.quick)
+        self._fresh_process_family(ctx, res)
         # malformed driver input
         drv = LeanDriver(self.driver)
         lines = ["init srv a0", "ctx cli b1", "proxy 1"] + [l for l, _ in _MALFORMED]
@@ -1916,6 +2060,9 @@ class C04(Prop):
 
     # -- replay -----------------------------------------------------------------------------------
     def replay(self, ctx: Ctx, rp: dict):
+        if rp.get("kind") == "procs":
+            fs = fresh_process_oracle(run_fresh_processes(rp["seed_value"], rp["names"]))
+            return Failure(fs[0][0], f"{fs[0][0]}: {fs[0][1]}", rp) if fs else None
         if rp.get("kind") == "retry":
             spec = rp["spec"]
             out, events, val = run_retry(spec)
